@@ -213,6 +213,19 @@ func (s *lifeScenario) onClose(cs *connState, c gnet.Conn, err error) gnet.Actio
 	case err != nil && !remote:
 		s.mon.violate("C04 OnClose(err) without a peer or I/O cause plan="+d.plan, fmt.Sprintf("connection %d (plan %s): OnClose(%v) but no peer close/reset/I-O failure was provoked (local request armed: %v)", cs.tok, d.plan, err, local))
 	}
+	// a second close cause inside OnClose itself: EventLoop.Close on the connection being closed must be a
+	// no-op, and a Write (the framework flushes what OnClose writes) must not start another close
+	switch vlib.Mix(cs.key^0xc105e) % 4 {
+	case 0:
+		if cerr := c.EventLoop().Close(c); cerr != nil {
+			s.mon.violate("C04 EventLoop.Close inside OnClose returned an error", fmt.Sprintf("connection %d: %v", cs.tok, cerr))
+		}
+		s.key(s.c.class() + "|onclose-reentrant-close")
+	case 1:
+		_, _ = c.Write([]byte("last words"))
+		_, _ = c.Write(make([]byte, 128*1024))
+		s.key(s.c.class() + "|onclose-write|" + map[bool]string{true: "nil", false: "err"}[err == nil])
+	}
 	s.key(s.c.class() + "|close|" + d.plan + "|" + map[bool]string{true: "nil", false: "err"}[err == nil])
 	if s.shutdownFrom == "OnClose" && s.shutdownArmed.Load() && !s.shutdownFired.Swap(true) {
 		s.armAll()
@@ -335,6 +348,8 @@ func runLifeCase(c cfg, seed uint64, o lifeOpts, keys map[string]struct{}) (eval
 	s.mon = mon
 	vsys.ResetAlarms()
 	vsys.ResetLedger()
+	vsys.PlanClear()
+	defer vsys.PlanClear()
 	// warm the Go runtime's own descriptors, then snapshot the table
 	if l, err := net.Listen("tcp", "127.0.0.1:0"); err == nil {
 		_ = l.Close()
@@ -645,8 +660,17 @@ func runLifeCase(c cfg, seed uint64, o lifeOpts, keys map[string]struct{}) (eval
 	// ---- shutdown
 	trigger()
 	stopErrCh := make(chan error, 1)
+	var extra []net.Conn
 	t0 := time.Now()
 	switch o.shutdownFrom {
+	case "accept-error":
+		// a non-retryable accept4 failure shuts the engine down by design; every open connection must still be closed
+		s.armAll()
+		vsys.PlanAdd(&vsys.Rule{Call: vsys.CAccept, FD: -1, Index: 1, Action: vsys.AErrno, Errno: unix.EMFILE, Once: true})
+		if conn, err := dialPeerPre(life.dialNet, life.dialAddr, &s.preArmed); err == nil {
+			extra = append(extra, conn)
+		}
+		stopErrCh <- nil
 	case "Engine.Stop", "":
 		s.armAll()
 		go func() {
@@ -696,7 +720,7 @@ func runLifeCase(c cfg, seed uint64, o lifeOpts, keys map[string]struct{}) (eval
 	case <-time.After(3 * time.Second):
 		stopErr = errors.New("Stop call did not return although Run returned")
 	}
-	if life.runErr != nil {
+	if life.runErr != nil && o.shutdownFrom != "accept-error" {
 		mon.violate("C06 Run returned an error after graceful shutdown source="+o.shutdownFrom, fmt.Sprintf("Run returned %v", life.runErr))
 	}
 	if stopErr != nil {
@@ -707,6 +731,9 @@ func runLifeCase(c cfg, seed uint64, o lifeOpts, keys map[string]struct{}) (eval
 		if p.conn != nil {
 			closePeer(p.conn)
 		}
+	}
+	for _, ec := range extra {
+		closePeer(ec)
 	}
 	// grace interval: nothing of this engine may run any more
 	for k := 0; k < 3; k++ {
